@@ -701,7 +701,7 @@ def merge_cli_proofs(ctx, frag, st):
 
 
 def _tamper(R, a, rng):
-    """one byte changed inside what the independent reader of the format says is protected (the protected view changes)"""
+    """candidates: one byte changed inside what the independent reader of the format says is protected (the protected view changes)"""
     spec = F.FORMATS[a.fmt]
     n = len(a.data)
     cands = [n // 2, n // 3, (2 * n) // 3, n // 4, n // 5] + [rng.randrange(n) for _ in range(40)]
@@ -716,8 +716,38 @@ def _tamper(R, a, rng):
             continue
         if spec.get("neutral") and spec["neutral"](a.view, v):
             continue
-        return bytes(b), off
-    return None, None
+        yield bytes(b), off
+
+
+def _apk_broken_v1(R, kit, d):
+    """an APK whose v1 (JAR) signature is broken and whose v2 block, made afterwards, is intact: v1-sign, alter one digest line of the
+    .SF file (member rewritten, rest of the archive byte-identical), then add the v2 block over the altered archive"""
+    from vlib import c02_zip as Z
+    try:
+        src = kit.fixture("dummy.apk")
+        v1 = os.path.join(d, "v1-dummy.apk")
+        rc, txt = kit.sign("rsa2048", src, v1, sigtype="jar", flags=["--apk-v2-present"])
+        if rc != 0:
+            return None
+        data = open(v1, "rb").read()
+        z = Z.Zip(data)
+        sf = [e for e in z.entries if e.name.upper().endswith(b".SF")]
+        if not sf:
+            return None
+        body = bytearray(sf[0].data())
+        k = body.find(b"Digest: ")
+        if k < 0:
+            return None
+        body[k + 10] = ord("A") if body[k + 10] != ord("A") else ord("B")
+        broken = os.path.join(d, "v1broken-dummy.apk")
+        open(broken, "wb").write(M.zip_rewrite(data, replace={sf[0].name: bytes(body)}))
+        out = os.path.join(d, "tampered-v1-dummy.apk")
+        rc, txt = kit.sign("rsa2048", broken, out)
+        if rc != 0 or not os.path.exists(out):
+            return None
+        return out
+    except Exception:
+        return None
 
 
 def cli_part(ctx, kit, R, rng, thorough, st):
@@ -762,9 +792,10 @@ def cli_part(ctx, kit, R, rng, thorough, st):
         base = os.path.basename(a.path)
         ids[("good", fmt)] = add(put("good-" + base, a.data), "good", signer="rsa-pgp" if fmt in PGP_ONLY else "rsa-x509", integrity="good", fmt=fmt)
         if a.view is not None and fmt in ("pe-coff", "ps", "jar", "rpm", "deb", "pgp-clearsign", "appmanifest", "cab", "msi"):
-            t, off = _tamper(R, a, rng)
-            if t is not None:
-                ids[("tampered", fmt)] = add(put("tampered-" + base, t), "tampered", fmt=fmt, offset=off, signer="rsa-pgp" if fmt in PGP_ONLY else "rsa-x509")
+            for t, off in _tamper(R, a, rng):
+                ids[("tampered", fmt)] = add(put("tampered-" + base, t), "tampered", fmt=fmt, offset=off, mask=t[off] ^ a.data[off], art=a, data=t,
+                                             signer="rsa-pgp" if fmt in PGP_ONLY else "rsa-x509")
+                break
     for fmt in ("pe-coff", "jar", "ps"):
         a = have.get((fmt, "p256"))
         if a and a.data is not None:
@@ -813,22 +844,33 @@ def cli_part(ctx, kit, R, rng, thorough, st):
 
     def pick(*keys):
         return [ids[k] for k in keys if k in ids]
-    core = pick(("good", "pe-coff"), ("tampered", "pe-coff"), ("good", "pgp-clearsign"), ("good", "rpm"), ("otherkey", "pe-coff"), ("unsigned", "hello.jar"), ("detached", "sig"))
+    apk1 = _apk_broken_v1(R, kit, d)
+    if apk1:
+        ids[("tampered", "apk-v1")] = add(apk1, "apk-v1-broken-v2-valid", fmt="apk", signer="rsa-x509")
+        allids = [f["id"] for f in files]
+    core = pick(("good", "pe-coff"), ("tampered", "pe-coff"), ("good", "pgp-clearsign"), ("good", "rpm"), ("otherkey", "pe-coff"), ("otherkey", "jar"), ("unsigned", "hello.jar"),
+                ("detached", "sig"), ("tampered", "apk-v1"))
     mixed = pick(("good", "pe-coff"), ("tampered", "jar"), ("unreadable", "missing"), ("good", "pgp-clearsign"))
+    # The system trust store of the relic processes (and of the driver) is replaced by one that holds only the p256 test root
+    # (SSL_CERT_FILE / SSL_CERT_DIR), so that "falls back to / adds the system store" is observable: x509 = what an X.509 signer must
+    # chain to under the option set (the given anchors, plus the system store with --system-store; the system store alone when no
+    # X.509 anchor is given), pgp = the keyring.
+    SYS = ("p256-x509",)
+    both = [rsa["crt"], rsa["pgp"]]
     opts = [
-        dict(name="anchors", args=anchors, certs=[rsa["crt"], rsa["pgp"]], files=allids, mixed=mixed, trusted=("rsa-x509", "rsa-pgp"), chain=True, plain=True),
-        dict(name="content", args=anchors + ["--content", content_good], certs=[rsa["crt"], rsa["pgp"]], content=content_good, files=core, trusted=("rsa-x509", "rsa-pgp"), chain=True, content_ok=True),
-        dict(name="other-anchor", args=["--cert", p256.get("crt", rsa["crt"])], certs=[p256.get("crt", rsa["crt"])], files=core, trusted=("p256-x509",), chain=True, plain=True),
-        dict(name="pgp-anchor-only", args=["--cert", rsa["pgp"]], certs=[rsa["pgp"]], files=core, trusted=("rsa-pgp",), chain=True, plain=True),
-        dict(name="no-anchor", args=[], certs=[], files=core, trusted=(), chain=True),
-        dict(name="no-trust-chain", args=["--no-trust-chain"], certs=[], no_chain=True, files=core, trusted=(), chain=False),
-        dict(name="bad-cert-file", args=["--cert", os.path.join(d, "no-such-cert.pem")], certs=[os.path.join(d, "no-such-cert.pem")], files=core[:3], trusted=(), chain=True, certs_bad=True),
-        dict(name="show-certs", args=anchors + ["--show-certs"], certs=[rsa["crt"], rsa["pgp"]], show=True, files=core, trusted=("rsa-x509", "rsa-pgp"), chain=True, plain=True),
-        dict(name="system-store", args=anchors + ["--system-store"], certs=[rsa["crt"], rsa["pgp"]], system=True, files=core, trusted=("rsa-x509", "rsa-pgp"), chain=True, plain=True),
-        dict(name="no-integrity-check", args=anchors + ["--no-integrity-check"], certs=[rsa["crt"], rsa["pgp"]], no_integrity=True, files=core, trusted=("rsa-x509", "rsa-pgp"), chain=True, integrity_off=True),
+        dict(name="anchors", args=anchors, certs=both, files=allids, mixed=mixed, x509=("rsa-x509",), pgp=("rsa-pgp",), chain=True, plain=True),
+        dict(name="content", args=anchors + ["--content", content_good], certs=both, content=content_good, files=core, x509=("rsa-x509",), pgp=("rsa-pgp",), chain=True, content_ok=True),
+        dict(name="other-anchor", args=["--cert", p256.get("crt", rsa["crt"])], certs=[p256.get("crt", rsa["crt"])], files=core, x509=("p256-x509",), pgp=(), chain=True, plain=True),
+        dict(name="pgp-anchor-only", args=["--cert", rsa["pgp"]], certs=[rsa["pgp"]], files=core, x509=SYS, pgp=("rsa-pgp",), chain=True, plain=True),
+        dict(name="no-anchor", args=[], certs=[], files=core, x509=SYS, pgp=(), chain=True, plain=True),
+        dict(name="no-trust-chain", args=["--no-trust-chain"], certs=[], no_chain=True, files=core, x509=(), pgp=(), chain=False),
+        dict(name="bad-cert-file", args=["--cert", os.path.join(d, "no-such-cert.pem")], certs=[os.path.join(d, "no-such-cert.pem")], files=core[:3], x509=(), pgp=(), chain=True, certs_bad=True),
+        dict(name="show-certs", args=anchors + ["--show-certs"], certs=both, show=True, files=core, x509=("rsa-x509",), pgp=("rsa-pgp",), chain=True, plain=True),
+        dict(name="system-store", args=anchors + ["--system-store"], certs=both, system=True, files=core, x509=("rsa-x509",) + SYS, pgp=("rsa-pgp",), chain=True, plain=True),
+        dict(name="no-integrity-check", args=anchors + ["--no-integrity-check"], certs=both, no_integrity=True, files=core, x509=("rsa-x509",), pgp=("rsa-pgp",), chain=True, integrity_off=True),
     ]
     if content_bad:
-        opts.insert(2, dict(name="wrong-content", args=anchors + ["--content", content_bad], certs=[rsa["crt"], rsa["pgp"]], content=content_bad, files=core, trusted=("rsa-x509", "rsa-pgp"), chain=True))
+        opts.insert(2, dict(name="wrong-content", args=anchors + ["--content", content_bad], certs=both, content=content_bad, files=core, x509=("rsa-x509",), pgp=("rsa-pgp",), chain=True))
     for i, o in enumerate(opts):
         o["id"] = i
     plan = {"relic": kit.relic, "files": [{"id": f["id"], "path": f["path"], "label": f["label"]} for f in files],
@@ -847,7 +889,13 @@ def cli_part(ctx, kit, R, rng, thorough, st):
     if not st.get("harness_ok"):
         res["skipped"] = "driver drv-c02 does not build"
         return res
-    rc, out, err = ctx.drv(["cli", plan_path], timeout=1500)
+    sysdir = os.path.join(d, "empty-ssl-dir")
+    os.makedirs(sysdir, exist_ok=True)
+    denv = dict(os.environ, SSL_CERT_FILE=p256.get("crt", ""), SSL_CERT_DIR=sysdir)
+    os.makedirs(os.path.join(ctx.scratch, "drv"), exist_ok=True)
+    pd = subprocess.run([ctx.drv_path(), "-seed", str(ctx.seed), "-tier", ctx.tier, "-scratch", os.path.join(ctx.scratch, "drv"), "cli", plan_path],
+                        stdout=subprocess.PIPE, stderr=subprocess.PIPE, env=denv, timeout=1500)
+    rc, out, err = pd.returncode, pd.stdout.decode(errors="replace"), pd.stderr.decode(errors="replace")
     recs = [json.loads(l) for l in out.splitlines() if l.startswith("{")]
     if rc != 0 or not recs:
         ctx.violation("C02:cli:driver", "driver drv-c02 cli failed (exit %s): %s" % (rc, err[-300:]), {"stderr": err[-2000:]}, False)
@@ -865,12 +913,12 @@ def cli_part(ctx, kit, R, rng, thorough, st):
     def must_reject(f, o):
         """from how the file was made and what the option set trusts (no reference to relic's answer)"""
         if f["integrity"] == "bad":
-            if f["label"] == "tampered" and o.get("integrity_off"):
-                return None, None        # the caller switched integrity checking off: outside the property
+            if f["label"] == "tampered" and (o.get("integrity_off") or not o.get("chain")):
+                return None, None        # the caller switched integrity or chain checking off: outside the property (a changed certificate byte is caught by the chain check only)
             return True, "integrity"
         if f["detached"] and not o.get("content_ok"):
             return True, "integrity"      # a detached signature without its content, or with altered content
-        if o.get("chain") and f["signer"] not in o["trusted"]:
+        if o.get("chain") and f["signer"] not in (o["pgp"] if str(f["signer"]).endswith("-pgp") else o["x509"]):
             return True, "trust"
         if not o.get("chain"):
             return None, None
@@ -886,6 +934,7 @@ def cli_part(ctx, kit, R, rng, thorough, st):
         e["n"] += 1
     model_in, model_cases = [], []
     distinct = set()
+    routed = set()
     for c in cases:
         o = opts[c["opt"]]
         fl = [fby[i] for i in c["files"]]
@@ -903,7 +952,7 @@ def cli_part(ctx, kit, R, rng, thorough, st):
                 if l.startswith(f["path"] + " ERROR: "):
                     errl.append(f["path"])
                     break
-        rp = {"key": None, "option_set": o["name"], "command": " ".join(c["args"]), "files": [{"path": f["path"], "label": f["label"], "format": f["fmt"], "signer": f["signer"]} for f in fl],
+        rp = {"key": None, "option_set": o["name"], "command": " ".join(c["args"]), "files": [{"path": f["path"], "label": f["label"], "format": f["fmt"], "signer": f["signer"], "offset": f.get("offset")} for f in fl],
               "exit": c["exit"], "stdout": c["stdout"][-1500:], "stderr": c["stderr"][-600:]}
         if len(res["samples"]) < 6 and c["class"] in ("permutation", "tuple"):
             res["samples"].append({"option_set": o["name"], "labels": [f["label"] for f in fl], "exit": c["exit"], "ok_lines": [okl[f["path"]] for f in fl], "error_lines": len(errl)})
@@ -911,6 +960,17 @@ def cli_part(ctx, kit, R, rng, thorough, st):
         certs_bad = bool(o.get("certs_bad"))
         bad = [(f, why) for f, (mr, why) in zip(fl, verdicts) if mr]
         fired = False
+        for f, why in list(bad):
+            # a single changed byte the command accepts is judged like every other mutation of the campaign (region classes, known findings)
+            if f["label"] == "tampered" and okl[f["path"]] > 0:
+                fired = True
+                if f["path"] not in routed:
+                    routed.add(f["path"])
+                    a = f["art"]
+                    lab = F.region_of(a.regions, f["offset"]) if a.regions else None
+                    R.judge(a, {"kind": "flip", "ops": [["xor", f["offset"], f["mask"]]], "label": lab or "gap", "offset": f["offset"],
+                                "note": "accepted by `relic verify` (exit %d, option set %s)" % (c["exit"], o["name"])}, {"ok": True, "sigs": c["stdout"][-300:]}, f["data"])
+                bad.remove((f, why))
         if c["exit"] == 0 and (bad or certs_bad or not fl):
             fired = True
             what = "no file named" if not fl else ("the trust anchors could not be loaded" if certs_bad and not bad else "%s file %s (%s)" % (bad[0][0]["label"], os.path.basename(bad[0][0]["path"]), bad[0][1]))
